@@ -7,7 +7,8 @@ from .. import common as C
 
 ID = "C02"
 PROPERTY_FILE = "Properties/C02.v"
-PROOF_TARGETS = ["Properties/C02.vo"]
+PROOF_TARGETS = ["Properties/C02.vo", "Proofs/Tie_gridops.vo"]
+TIE_LEMMAS = ["Tie_fallback_shifts", "Tie_pad_modes"]
 EVAL_TARGETS = ["Corr/Eval_C02.vo"]
 IMPORTS = ("From Coq Require Import List Bool ZArith QArith String.\n"
            "From XV Require Import Base.Res Base.Assoc Base.Seq1D Base.Tensor Model.Axis Model.GridCtor Model.Pad Corr.Eval_C02.")
@@ -120,21 +121,30 @@ def generate(rng, tier):
     return cases
 
 
-def run_impl(case):
+def build_grid(c, with_coords=False):
     import numpy as np
     import xarray as xr
     from xgcm import Grid
-    from xgcm.padding import pad
-    c = case["ctor"]
     sizes = {}
     for a, cs in c["coords"]:
         for p, d in cs:
             sizes[d] = plen(p, c["N"][a])
     ds = xr.Dataset({f"v_{d}": ((d,), np.zeros(n)) for d, n in sizes.items()})
+    if with_coords:
+        ds = ds.assign_coords({d: (d, np.arange(n) * 1.5) for d, n in sizes.items()})
     coords = {a: {p: d for p, d in cs} for a, cs in c["coords"]}
+    g = Grid(ds, coords=coords, periodic=c["periodic"], boundary=c["boundary"],
+             fill_value=c["fill"], autoparse_metadata=False)
+    return ds, g, sizes
+
+
+def run_impl(case):
+    import numpy as np
+    import xarray as xr
+    from xgcm.padding import pad
+    c = case["ctor"]
     try:
-        g = Grid(ds, coords=coords, periodic=c["periodic"], boundary=c["boundary"],
-                 fill_value=c["fill"], autoparse_metadata=False)
+        ds, g, _ = build_grid(c)
     except Exception as e:
         return {"ctor_err": type(e).__name__}
     out = {"axes": [[a, g.axes[a].boundary, str(Fraction(g.axes[a].fill_value))] for a in g.axes]}
@@ -178,8 +188,7 @@ def cpos(p):
     return p.capitalize()
 
 
-def coq_case(case, obs):
-    c = case["ctor"]
+def coq_ctor(c):
     dsdims = sorted({d for _, cs in c["coords"] for _, d in cs})
     per = c["periodic"]
     if isinstance(per, bool):
@@ -194,6 +203,11 @@ def coq_case(case, obs):
                 for a, cs in c["coords"]) +
             f"; c_periodic := {cper}; c_boundary := {ckw(c['boundary'], cbw)}" +
             f"; c_fill := {ckw(c['fill'], cq)}; c_shifts := KScalar None |}}")
+    return ctor
+
+
+def coq_case(case, obs):
+    ctor = coq_ctor(case["ctor"])
     k = case.get("call")
     if k:
         bw = "None" if k["bw"] is None else "(Some " + C.clist(
